@@ -259,7 +259,9 @@ PROPS = {
         assumed=[],
         explanation="Engine P proves, with every clock observation and every Optimize.check() under a timeout nondeterministic, that "
         "single_inference / the worker / preprocess_belief_base convert exactly TimeoutError into flagged rows with answer False and "
-        "that the z3 back-ends' _inference raise nothing else; fault injection at every observation point is the bounded stand-in.",
+        "that the z3 back-ends' _inference raise nothing else; the two enumeration loops (minimal_correction_subsets polls the deadline, "
+        "get_all_xi_i turns a given-up optimizer into TimeoutError) raise TimeoutError and nothing else; fault injection at every "
+        "observation point is the bounded stand-in.",
     ),
     "C15": dict(
         level="other",
